@@ -154,7 +154,7 @@ pub fn dispatch(op: &str, a: &[Term]) -> Option<Term> {
             trmat(&order::union(&x, &y).basis())
         }
         // ord_disc O f -> [d r]: d = discriminant(f), r = O.discriminant(theta), each [ok v] | [panic class];
-        // the model is handed d (the polynomial discriminant is modelled elsewhere)
+        // the model answers r only (it computes the polynomial discriminant itself); d is for the oracle
         "ord_disc" => {
             let o = ord(&a[0]);
             let f = zp(&a[1]);
